@@ -58,7 +58,7 @@ def cases(tier, seed):
     return out
 
 
-def spec_for(layer):
+def spec_for(layer, poll_mode="second_call"):
     layers = layer.split(">")
     out = []
     for k, t in enumerate(layers):
@@ -68,7 +68,7 @@ def spec_for(layer):
         if t == "throttle":
             L.update(count=1)
         if t == "poll":
-            L.update(interval=20.0, mode="second_call")
+            L.update(interval=20.0, mode=poll_mode)
         if t == "timeout":
             L.update(timeout=500.0)
         if t == "map":
@@ -99,11 +99,11 @@ class Job(object):
         return self.res
 
 
-def build_unowned(layer):
+def build_unowned(layer, poll_mode="second_call"):
     """Build a stack without registering it for cleanup (the scenario owns every reference)."""
     ctx = Ctx()
     n0 = len(instr.TRACKED)
-    b = stacks.build(ctx, spec_for(layer))
+    b = stacks.build(ctx, spec_for(layer, poll_mode))
     threads = [t for t in instr.TRACKED[n0:]]
     ctx.executors = []
     return b, threads
@@ -394,6 +394,18 @@ def make_history(b, me, hist, tag):
             me.fail(k, UserErrorA("boom"))
         instr.advance(0.05)
         ok = (not f.done()) and f.cancel()
+    elif hist == "delegate_cancelled":
+        # the delegate's future is cancelled by its owner, behind the library's back
+        ok = bool(mine)
+        for k in mine:
+            me.fut(k).cancel()
+    elif hist == "cancel_refused_then_completed":
+        ok = bool(mine)
+        for k in mine:
+            me.mark_running(k)
+        f.cancel()
+        for k in mine:
+            me.complete(k, Obj("late" + tag))
     instr.advance(25.0)
     for k in me.pending():
         me.run(k)
@@ -406,17 +418,25 @@ def run_held(case, res):
     worker thread must exit (a done future must not reference its executor)."""
     layer = case["layer"]
     layers = layer.split(">")
-    for hist in ("completed", "failed", "cancelled_in_flight", "cancelled_queued", "cancelled_between_retries"):
+    for hist in ("completed", "failed", "cancelled_in_flight", "cancelled_queued", "cancelled_between_retries", "delegate_cancelled",
+                 "cancel_refused_then_completed", "poll_raised"):
         if hist == "cancelled_queued" and "throttle" not in layers:
             continue
         if hist == "cancelled_between_retries" and "retry" not in layers:
             continue
+        if hist == "poll_raised" and "poll" not in layers:
+            continue
         begin("vt")
         ctx = Ctx()
         try:
-            b, threads = build_unowned(layer)
+            # poll_raised: the poll function raises while the future is shown to it - the future fails with
+            # the poll function's exception
+            b, threads = build_unowned(layer, poll_mode="raise_once" if hist == "poll_raised" else "second_call")
             me = b.base
-            f, ok = make_history(b, me, hist, "h")
+            f, ok = make_history(b, me, "completed" if hist == "poll_raised" else hist, "h")
+            if hist == "poll_raised":
+                ok = ok and f.exception() is not None and type(f.exception()).__name__ == "PollBoom"
+                b.poll_state.clear()  # (the harness's own record of the raised exception)
             if not ok:
                 res.count("history_not_reached")
                 continue
